@@ -11,6 +11,9 @@
       of the file - is excluded for all inputs), the column is never negative;
     - C17_column_partial: the column is at least 1 unless the file ends in a
       line break and the scan ran off its end;
+    - C17_line_upper_partial: the reported line is not after the line of the first
+      character at or after the offset that is neither white space nor inside a
+      `--` comment as LineNumber sees comments;
     - C17_total: LineNumber returns a position for every input (no panic).
     The offset is the statement's StmtLocation, which the parser places at or
     after the end of the preceding statement; so "after the end of the preceding
@@ -44,6 +47,21 @@ Print Assumptions C17_column_partial.
 Theorem C17_total : forall src head, exists l c, line_number src head = Ok (l, c).
 Proof. intros src head. apply loop_total. Qed.
 Print Assumptions C17_total.
+
+(** The upper half of the region: if some character at or after the offset is
+    neither white space nor inside a `--` comment - as LineNumber itself sees
+    comments ([flag_after]) - the reported line is not after that character's
+    line.  Every statement has such a character on or before its last line
+    unless `--` occurs inside a string literal or block comment before it on
+    the same line: exactly the known finding. *)
+Theorem C17_line_upper_partial : forall src head l c pre k post,
+  line_number src head = Ok (l, c) ->
+  runes src = pre ++ k :: post ->
+  (head <= fst k)%Z -> is_space_rune (snd k) = false ->
+  flag_after src (pre ++ [k]) false = false ->
+  (l <= 1 + count_nl pre)%Z.
+Proof. exact line_number_upper. Qed.
+Print Assumptions C17_line_upper_partial.
 
 (** the hypotheses are met, and the bound is tight: a statement at offset 16
     of a file whose first line holds a multi-byte comment is reported on line 2 *)
